@@ -297,6 +297,25 @@ CHECKS["C16"] = {
     "level_note": "the C side runs uninstrumented: it is the oracle, not the subject",
 }
 
+CHECKS["C10"] = {
+    "title": "signatures are spherical Gaussian (no leakage of the basis)",
+    "rule": "Offline statistical checker over recorded transcripts. Per key (2 Falcon-512 + 1 Falcon-1024 quick; 6 + 3 thorough), M "
+            "signatures on distinct messages are produced by the real signer with seeded honest randomness (SignRng hook, so a run "
+            "is reproducible); (s1, s2) is recovered from the signature BYTES with the reference codec, hash and ring (s1 = c - s2 h "
+            "centred); the secret basis comes from the serialised key (G recomputed with the reference ring, cross-checked with the "
+            "in-memory basis). Directions: the 2n normalised rows of the rotation basis of (g,-f),(G,-F) and their 2n Gram-Schmidt "
+            "vectors (independent f64 Gram-Schmidt in the tree's row order), also grouped into 16 bins by Gram-Schmidt norm. Tests: "
+            "E||s||^2 = 2n sigma^2; pooled second moments along both row families and along the Gram-Schmidt directions = sigma^2 "
+            "(z-scores with EMPIRICAL standard errors from per-signature values, alarm |z| >= 6); each of the 16 bins (6.5); every "
+            "single direction's second moment (chi-square with M dof) and mean (7); every emitted signature within the bound. "
+            "Family-wise false-alarm probability per run below 1e-6. distinct_nontrivial = distinct (key, direction) pairs tested.",
+    "assumptions": ["resolution: about 0.5% on pooled second moments, 1% per bin, 10% per single direction (quick); 3x finer thorough", "reference codec/hash/ring and f64 Gram-Schmidt of the harness (the latter cross-validated against the tree leaves in C04)"],
+    "legs": [{"name": "transcripts"}],
+    "technique": "offline statistical checker over a recorded transcript of signature vectors: moment tests along the secret basis rows and Gram-Schmidt directions with empirical standard errors",
+    "level_text": "Distributional property decided statistically on transcripts of thousands of signatures per key, in 4n directions per key.",
+    "level_note": "anisotropy below the stated resolution, directions outside the 4n tested and keys outside the pool are not observable",
+}
+
 NOT_APPLICABLE = {}
 
 ENGINES = [
